@@ -213,12 +213,38 @@ def string_cases(body, compares=None, extra_cells=()):
     out = {}
     for cell in cells:
         seen = set()
-        st = [0]
+        visited = set()
+        st = [(0, ())]
         while st:
-            bb = st.pop()
-            if bb in seen:
+            bb, envt = st.pop()
+            if (bb, envt) in visited:
                 continue
+            visited.add((bb, envt))
             seen.add(bb)
+            # boolean locals holding a constant on this path (`let is_skipped = matches!(key, "a" | "b"); if is_skipped {..}`:
+            # the outcome of the comparisons is stored first and tested later)
+            env = dict(envt)
+            for s in body.blocks[bb]["s"]:
+                if s["k"] != "assign" or s["place"]["p"]:
+                    continue
+                dst, rv = s["place"]["l"], s["rv"]
+                val = None
+                if rv["k"] == "use":
+                    k = op_const(rv["op"])
+                    if k is not None and k.get("ty") == "bool" and k.get("int") in (0, 1):
+                        val = bool(k["int"])
+                    elif op_local(rv["op"]) is not None and not (rv["op"].get("copy") or rv["op"].get("move"))["p"]:
+                        val = env.get(op_local(rv["op"]))
+                elif rv["k"] == "unop" and rv["op"] == "Not" and op_local(rv["a"]) is not None and env.get(op_local(rv["a"])) is not None:
+                    val = not env[op_local(rv["a"])]
+                if val is None:
+                    env.pop(dst, None)
+                else:
+                    env[dst] = val
+            t = body.blocks[bb]["t"]
+            if t["k"] == "call" and t.get("dest") is not None:
+                env.pop(t["dest"]["l"], None)
+            envt2 = tuple(sorted(env.items()))
             c = by_bb.get(bb)
             if c is not None and c["true"] is not None:
                 if cell == OTHER:
@@ -227,10 +253,16 @@ def string_cases(body, compares=None, extra_cells=()):
                     hit = c["lit"].lower() == cell.lower()
                 else:
                     hit = c["lit"] == cell
-                st.append(c["true"] if hit else c["false"])
+                st.append((c["true"] if hit else c["false"], envt2))
+                continue
+            if t["k"] == "switch" and op_local(t["discr"]) is not None and env.get(op_local(t["discr"])) is not None \
+                    and not (t["discr"].get("copy") or t["discr"].get("move"))["p"]:
+                v = 1 if env[op_local(t["discr"])] else 0
+                hit = [x for vv, x in t["targets"] if vv == v]
+                st.append((hit[0] if hit else t["otherwise"], envt2))
                 continue
             for s in succs[bb]:
-                st.append(s)
+                st.append((s, envt2))
         out[cell] = seen
     return out, cells
 
